@@ -10,6 +10,8 @@
 //!   quadseg   QuadraticBezierSegment::line_segment_intersections_t
 //!   polyroots utils::cubic_polynomial_roots
 //!   cubicline CubicBezierSegment::{line_intersections_t, line_intersections}
+//!             + planted stream `cubicline3` (appended after all other ids): distance polynomial with
+//!               constructed roots (three / pair / double / quad2 / lin1), tagged with lyon's branch
 //!   cubicseg  CubicBezierSegment::line_segment_intersections_t
 //!   tri       Triangle::{contains_point, intersects, intersects_line_segment}
 //!   cubiccubic CubicBezierSegment::{cubic_intersections_t (both argument orders), cubic_intersections}
@@ -1005,6 +1007,244 @@ fn cubicline_case<S: Fl>(ctx: &mut Ctx) {
     });
 }
 
+/// The branch `utils::cubic_polynomial_roots` takes, recomputed with lyon's own expressions in the
+/// same scalar type (so the decision is bit-for-bit the one lyon makes): `linear`, `quadratic`
+/// (two roots) / `quadratic-double` / `quadratic-none`, `cardano` (one value), `repeated` (the
+/// optional second value is pushed), `trig` (three values), `none`.
+fn roots_branch<S: Fl>(a: S, b: S, c: S, d: S) -> &'static str {
+    let m = a.abs().max(b.abs()).max(c.abs()).max(d.abs());
+    let epsilon = S::epsilon_for(m);
+    if S::abs(a) < epsilon {
+        if S::abs(b) < epsilon {
+            if S::abs(c) < epsilon {
+                return "none";
+            }
+            return "linear";
+        }
+        let delta = c * c - S::FOUR * b * d;
+        return if delta > S::ZERO {
+            "quadratic"
+        } else if S::abs(delta) < epsilon {
+            "quadratic-double"
+        } else {
+            "quadratic-none"
+        };
+    }
+    let frac_1_3 = S::ONE / S::THREE;
+    let bn = b / a;
+    let cn = c / a;
+    let dn = d / a;
+    let delta0 = (S::THREE * cn - bn * bn) / S::NINE;
+    let delta1 = (S::NINE * bn * cn - S::value(27.0) * dn - S::TWO * bn * bn * bn) / S::value(54.0);
+    let delta_01 = delta0 * delta0 * delta0 + delta1 * delta1;
+    if delta_01 >= S::ZERO {
+        let sqrt_delta_01 = S::sqrt(delta_01);
+        let (s, t) = if delta1 >= S::ZERO {
+            let p = delta1 + sqrt_delta_01;
+            let s = p.signum() * S::abs(p).powf(frac_1_3);
+            (s, if s == S::ZERO { S::ZERO } else { -delta0 / s })
+        } else {
+            let m = delta1 - sqrt_delta_01;
+            let t = m.signum() * S::abs(m).powf(frac_1_3);
+            (if t == S::ZERO { S::ZERO } else { -delta0 / t }, t)
+        };
+        let epsilon = S::epsilon_for(bn.abs().max(cn.abs()).max(dn.abs()));
+        if S::abs(s - t) < epsilon && S::abs(s + t) >= epsilon {
+            "repeated"
+        } else {
+            "cardano"
+        }
+    } else {
+        "trig"
+    }
+}
+
+/// Planted stream for the completeness theorems of `Props/C12d.lean` / `Props/C12Real.lean`
+/// (`cubic_line_crossings_reported`, `cubic_line_crossings_order_real`,
+/// `cubic_roots_simple_complete_exact_degree`): a cubic whose signed distance to a chosen line is,
+/// BY CONSTRUCTION, a polynomial with known roots on the lattice `k/8` or `k/16` of `(0,1)`:
+///   three   h (t-t1)(t-t2)(t-t3), t1 < t2 < t3 at least 1/8 apart          -> trigonometric branch
+///   pair    h (t-t1)((t-c)^2 + e^2)                                         -> one-real-root branch
+///   double  h (t-t1)(t-t2)^2                                                -> discriminant 0 (any branch)
+///   quad2   h (t-t1)(t-t2)  (degree-elevated parabola: leading coefficient exactly 0)
+///   lin1    h (t-t1)
+/// The Bernstein coefficients of 3x the integer polynomial are integers; control point i is
+/// `P + along_i * v + n_i * perp(v)`, so that `cross(v, curve(t) - P) = |v|^2 * n(t)` exactly in the
+/// integer frames (`axis`, `lattice`, `scaled` by powers of two); the `rotated` frame rounds.
+/// Same CASE/IMPL format as `cubicline` (the model family is `cubicline`).  ORCL: range, on-line,
+/// every constructed simple crossing reported within the stated parameter envelope, the number of
+/// values (three / two / one), and in the trigonometric branch the order [t3, t1, t2].  Demanded when
+/// lyon's branch is the constructed polynomial's (the regime of the theorems) or the crossing is
+/// transversal in the generic stream's sense; otherwise `skip outside-exact-degree-regime` (tiny or
+/// rounded curves whose distance coefficients pass / fail lyon's absolute epsilon test by noise).
+fn cubicline3_case<S: Fl>(ctx: &mut Ctx) {
+    ctx.case(&format!("cubicline:{}", S::BITS), |rng| {
+        let k = rng.below(10);
+        let kind = if k < 6 { "three" } else if k < 7 { "pair" } else if k < 8 { "double" } else if k < 9 { "quad2" } else { "lin1" };
+        let den: i64 = if rng.chance(1, 2) { 8 } else { 16 };
+        let gap = den / 8;
+        // three increasing lattice parameters with gaps >= 1/8
+        let (k1, k2, k3) = loop {
+            let mut ks = [rng.range(1, den - 1), rng.range(1, den - 1), rng.range(1, den - 1)];
+            ks.sort();
+            if ks[1] - ks[0] >= gap && ks[2] - ks[1] >= gap {
+                break (ks[0], ks[1], ks[2]);
+            }
+        };
+        // integer power-basis coefficients a3 t^3 + a2 t^2 + a1 t + a0 and the expected crossings
+        let (a3, a2, a1, a0, expect, extra): (i64, i64, i64, i64, Vec<f64>, Vec<f64>) = match kind {
+            "three" => (
+                den * den * den,
+                -den * den * (k1 + k2 + k3),
+                den * (k1 * k2 + k1 * k3 + k2 * k3),
+                -k1 * k2 * k3,
+                vec![k1 as f64 / den as f64, k2 as f64 / den as f64, k3 as f64 / den as f64],
+                vec![],
+            ),
+            "pair" => {
+                let kc = rng.range(1, den - 1);
+                let ke = rng.range(1, den * den / 4);
+                (
+                    den * den * den,
+                    -2 * den * den * kc - den * den * k1,
+                    den * (kc * kc + ke) + 2 * den * kc * k1,
+                    -k1 * (kc * kc + ke),
+                    vec![k1 as f64 / den as f64],
+                    vec![kc as f64 / den as f64],
+                )
+            }
+            "double" => (
+                den * den * den,
+                -den * den * (k1 + k3 + k3),
+                den * (k1 * k3 + k1 * k3 + k3 * k3),
+                -k1 * k3 * k3,
+                vec![k1 as f64 / den as f64],
+                vec![k3 as f64 / den as f64],
+            ),
+            "quad2" => (0, den * den, -den * (k1 + k3), k1 * k3, vec![k1 as f64 / den as f64, k3 as f64 / den as f64], vec![]),
+            _ => (0, 0, den, -k2, vec![k2 as f64 / den as f64], vec![]),
+        };
+        let h = (if rng.chance(1, 2) { 1 } else { -1 }) * rng.range(1, 3);
+        // Bernstein coefficients of 3 h q(t)
+        let n = [h * 3 * a0, h * (3 * a0 + a1), h * (3 * a0 + 2 * a1 + a2), h * 3 * (a0 + a1 + a2 + a3)];
+        let sa = *rng.pick(&[1i64, 64, 4096]);
+        let along = [rng.range(-8, 8) * sa, rng.range(-8, 8) * sa, rng.range(-8, 8) * sa, rng.range(-8, 8) * sa];
+        let fk = rng.below(4);
+        let frame = ["axis", "lattice", "scaled", "rotated"][fk as usize];
+        let (px, py) = (rng.range(-16, 16) as f64, rng.range(-16, 16) as f64);
+        let (mut vx, mut vy) = match fk {
+            0 => *rng.pick(&[(1.0, 0.0), (0.0, 1.0), (-1.0, 0.0), (0.0, -1.0)]),
+            _ => loop {
+                let v = (rng.range(-4, 4) as f64, rng.range(-4, 4) as f64);
+                if v != (0.0, 0.0) {
+                    break v;
+                }
+            },
+        };
+        let mut scale = 1.0f64;
+        let mut vscale = 1.0f64;
+        if fk == 2 {
+            scale = (2.0f64).powi(rng.range(-12, 12) as i32);
+            vscale = (2.0f64).powi(rng.range(-6, 6) as i32);
+        } else if fk == 3 {
+            let th = rng.uniform(0.0, std::f64::consts::TAU);
+            vx = th.cos();
+            vy = th.sin();
+            scale = rng.log_uniform(-3.0, 3.0) / 4096.0;
+            vscale = rng.log_uniform(-2.0, 2.0);
+        }
+        let ctl = |i: usize| -> Point<S> {
+            let x = px + vx * along[i] as f64 + (-vy) * n[i] as f64;
+            let y = py + vy * along[i] as f64 + vx * n[i] as f64;
+            point(S::of(x * scale), S::of(y * scale))
+        };
+        let c = CubicBezierSegment { from: ctl(0), ctrl1: ctl(1), ctrl2: ctl(2), to: ctl(3) };
+        let l: Line<S> = Line { point: point(S::of(px * scale), S::of(py * scale)), vector: vector(S::of(vx * vscale), S::of(vy * vscale)) };
+        let mut args = Out::new();
+        args.p(c.from).p(c.ctrl1).p(c.ctrl2).p(c.to);
+        put_line(&mut args, &l);
+        let (class, rr) = cubicline_class(&c, &l);
+        let len = l.vector.length();
+        let unit = Line { point: l.point, vector: l.vector / len };
+        let co = cubic_line_coeffs(&c, &unit);
+        let branch = roots_branch(co[0], co[1], co[2], co[3]);
+        let tag = format!("cubicline3 {} {} {}", S::BITS, kind, branch);
+        (args, tag, move || {
+            let mut out = Out::new();
+            let ts = c.line_intersections_t(&l);
+            let ps = c.line_intersections(&l);
+            out.t("n").u(ts.len() as u64);
+            for t in &ts {
+                out.f(*t);
+            }
+            out.t("pts").u(ps.len() as u64);
+            for p in &ps {
+                out.p(*p);
+            }
+            let mut orc = Oracle::new();
+            let site = "cubic.line_intersections_t";
+            let ctrl = [p64(c.from), p64(c.ctrl1), p64(c.ctrl2), p64(c.to)];
+            let tsf: Vec<f64> = ts.iter().map(|t| t.f()).collect();
+            orc.check(tsf.iter().all(|t| (0.0..=1.0).contains(t)), &format!("{}/range", site), "generic", || format!("{:?}", tsf));
+            // The demands below are made in the regime of the theorems: lyon's degree / branch decision
+            // is the one of the constructed polynomial (`ExactDegree`; outside it the whole curve is
+            // within epsilon_for of the line: Lyon.C12d.cubic_line_outside_regime_flat) - or the
+            // crossing is transversal in the sense of the generic stream (slope >= 0.2 x polygon length).
+            let consistent = match kind {
+                "three" => branch == "trig",
+                "pair" => branch == "cardano" || branch == "repeated",
+                "double" => branch == "trig" || branch == "cardano" || branch == "repeated",
+                "quad2" => branch == "quadratic",
+                _ => branch == "linear",
+            };
+            let (lp, lv) = (p64(l.point), v64(l.vector));
+            let nl = norm(lv);
+            let fd = |t: f64| cross(lv, sub(bez(&ctrl, t), lp)) / nl;
+            let plen = polygon_len(&ctrl).max(1e-300);
+            let classic = expect.iter().any(|&r| ((fd(r + 1e-6) - fd(r - 1e-6)) / 2e-6).abs() >= 0.2 * plen);
+            if class == "near-degenerate" {
+                orc.skip("near-degenerate-leading-coefficient");
+            } else if !consistent && !classic {
+                orc.skip("outside-exact-degree-regime");
+            } else {
+                let sound_tol = curve_tol::<S>(&ctrl, p64(l.point), rr);
+                let param_tol = (if S::BITS == 32 { 1e-2 } else { 1e-5 }) + 1024.0 * S::EPS * rr;
+                for &t in &tsf {
+                    let e = (cross(lv, sub(bez(&ctrl, t), lp)) / nl).abs();
+                    orc.check(e <= sound_tol, &format!("{}/on-line", site), class, || format!("planted {}: t={} distance to line {:e} tol {:e}", kind, t, e, sound_tol));
+                    // every value is one of the constructed roots (simple, double, or the real part of the pair
+                    // only in the branch that pushes the optional value)
+                    let near = expect.iter().chain(extra.iter()).any(|r| (t - r).abs() <= param_tol.max(if kind == "double" { 64.0 * S::EPS.sqrt() } else { 0.0 }));
+                    orc.check(near, &format!("{}/planted-sound", site), class, || format!("planted {} {:?}+{:?}: value {} is no constructed root (tol {:e})", kind, expect, extra, t, param_tol));
+                }
+                for r in &expect {
+                    let hit = tsf.iter().any(|t| (t - r).abs() <= param_tol);
+                    if std::env::var("C12_STATS").is_ok() {
+                        let e = tsf.iter().map(|t| (t - r).abs()).fold(f64::INFINITY, f64::min);
+                        eprintln!("STAT planted-param {} {} {} {:e} {:e}", S::BITS, kind, frame, e / S::EPS, e / param_tol);
+                    }
+                    orc.check(hit, &format!("{}/planted-complete", site), class, || format!("planted {} ({}): constructed transversal crossing at t={} not reported; got {:?}", kind, branch, r, tsf));
+                }
+                let want = match kind {
+                    "three" => Some(3),
+                    "quad2" => Some(2),
+                    "lin1" => Some(1),
+                    "pair" => Some(if branch == "repeated" { 2 } else { 1 }),
+                    _ => None,
+                };
+                if let Some(w) = want {
+                    orc.check(tsf.len() == w, &format!("{}/planted-count", site), class, || format!("planted {} ({}): expected {} values, got {:?}", kind, branch, w, tsf));
+                }
+                if kind == "three" && branch == "trig" && tsf.len() == 3 {
+                    let ok = (tsf[0] - expect[2]).abs() <= param_tol && (tsf[1] - expect[0]).abs() <= param_tol && (tsf[2] - expect[1]).abs() <= param_tol;
+                    orc.check(ok, &format!("{}/planted-order", site), class, || format!("trigonometric branch: expected order [t3, t1, t2] = [{}, {}, {}], got {:?}", expect[2], expect[0], expect[1], tsf));
+                }
+            }
+            CaseOut { imp: out, orcl: orc.verdict }
+        })
+    });
+}
+
 fn cubicseg_case<S: Fl>(ctx: &mut Ctx) {
     ctx.case(&format!("cubicseg:{}", S::BITS), |rng| {
         let g = Gen::pick(rng);
@@ -1726,6 +1966,12 @@ fn main() {
         cubiccubic_case::<f64>(&mut ctx);
         cubiccubic_special_case::<f32>(&mut ctx);
         cubiccubic_special_case::<f64>(&mut ctx);
+    }
+    // planted crossings for the completeness theorems (appended: the ids above are unchanged)
+    let n3 = ctx.n(1000, 40000);
+    for _ in 0..n3 {
+        cubicline3_case::<f32>(&mut ctx);
+        cubicline3_case::<f64>(&mut ctx);
     }
     ctx.finish();
 }
